@@ -169,6 +169,7 @@ def snapshot(seq: Sequence, calls: bool = True) -> dict:
         in_ising=bool(seq._in_ising),
         empty=bool(seq._empty_sequence),
         register=reg_sig(seq._register),
+        qids=sorted(map(str, seq._qids)),
         device=seq._device.name,
         parametrized=seq.is_parametrized(),
         variables={k: (v.dtype.__name__, int(v.size)) for k, v in seq._variables.items()},
